@@ -1101,6 +1101,12 @@ class PyCdlib:
                             self.inodes.append(ino)
                         elif extent_to_use in extent_to_inode:
                             ino = extent_to_inode[extent_to_use]
+                            if all(isinstance(rec, eltorito.EltoritoEntry) for rec, pvd_unused in ino.linked_records):
+                                # Up to now only El Torito referred to this
+                                # Inode, so its length was a guess based on
+                                # the number of emulated sectors; the
+                                # Directory Record knows the real length.
+                                ino.data_length = len_to_use
                         else:
                             ino = inode.Inode()
                             ino.parse(extent_to_use, len_to_use, cdfp,
@@ -2162,6 +2168,9 @@ class PyCdlib:
                                 self.inodes.append(ino)
                             elif abs_file_data_extent in extent_to_inode:
                                 ino = extent_to_inode[abs_file_data_extent]
+                                if all(isinstance(rec, eltorito.EltoritoEntry) for rec, pvd_unused in ino.linked_records):
+                                    # See the comment in _walk_directories().
+                                    ino.data_length = next_entry.get_data_length()
                             else:
                                 ino = inode.Inode()
                                 ino.parse(abs_file_data_extent,
